@@ -1,15 +1,20 @@
 import BreezyVerif.Common
 import BreezyVerif.Model.C13
 /-
-C13 driver.  One request:
+C13 driver.  Requests:
 
-  apply <order D|M> <fault1 ~|n> <fault2 ~|n> <fs> <ops>
+  apply <order D|M> <jc T|F> <fault1 ~|n> <fault2 ~|n> <faultUndo ~|n> <faultMeta T|F> <fs> <ops>
+  rename <fs> <path> <path>          -- one `os.rename`
+  chmod <fs> <path> <T|F>            -- one `_set_executability`
 
-fs  = entries joined by `;`, entry = `<path>|<kind f|d|l>|<data>`; path = components
-      joined by `/` (each component hex), root = `.`; data = hex string or `-`
-ops = `r:<path>:<path>` | `p:<path>:<path>` joined by `;` (`-` = none)
+fs  = entries joined by `;`, entry = `<path>|<kind f|x|d|l>|<data>` (`x` = regular file with
+      the owner-executable bit); path = components joined by `/` (each component hex),
+      root = `.`; data = hex string or `-`
+ops = `r:<path>:<path>` | `p:<path>:<path>` | `c:<path>:<T|F>` joined by `;` (`-` = none)
+jc  = mode changes are journalled
 
-reply: `<raised|~> <md old|new> <rollbackFailed T|F> <noClobber T|F> <fs sorted, same encoding>`
+replies: apply  → `<raised|~> <md old|new> <rollbackFailed T|F> <noClobber T|F> <noModeChange T|F> <fs sorted>`
+         rename → `ok <fs sorted>` | `E:<errno>`;  chmod → `ok <old T|F> <fs sorted>` | `E:<errno>`
 -/
 namespace BreezyVerif.C13
 
@@ -20,14 +25,16 @@ def showPath (p : Path) : String := if p.isEmpty then "." else "/".intercalate p
 
 def parseEntry (s : String) : Option (Path × Node) :=
   match s.splitOn "|" with
-  | [p, "f", d] => (parsePath p).map fun p => (p, .file d)
+  | [p, "f", d] => (parsePath p).map fun p => (p, .file d false)
+  | [p, "x", d] => (parsePath p).map fun p => (p, .file d true)
   | [p, "d", _] => (parsePath p).map fun p => (p, .dir)
   | [p, "l", d] => (parsePath p).map fun p => (p, .link d)
   | _ => none
 
 def showEntry (e : Path × Node) : String :=
   match e.2 with
-  | .file d => s!"{showPath e.1}|f|{d}"
+  | .file d false => s!"{showPath e.1}|f|{d}"
+  | .file d true => s!"{showPath e.1}|x|{d}"
   | .dir => s!"{showPath e.1}|d|-"
   | .link d => s!"{showPath e.1}|l|{d}"
 
@@ -42,21 +49,39 @@ def parseOp (s : String) : Option Op :=
   match s.splitOn ":" with
   | ["r", a, b] => do pure (.rename (← parsePath a) (← parsePath b))
   | ["p", a, b] => do pure (.preDelete (← parsePath a) (← parsePath b))
+  | ["c", a, "T"] => do pure (.chmod (← parsePath a) true)
+  | ["c", a, "F"] => do pure (.chmod (← parsePath a) false)
   | _ => none
 
 def parseOps (s : String) : Option (List Op) :=
   if s == "-" then some [] else (s.splitOn ";").mapM parseOp
 
+def parseB (s : String) : Option Bool := if s == "T" then some true else if s == "F" then some false else none
+
 def handle : List String → String
-  | ["apply", o, f1, f2, fs, ops] =>
+  | ["apply", o, jc, f1, f2, fu, fm, fs, ops] =>
     match (if o == "D" then some Order.deletionsFirst else if o == "M" then some Order.metadataFirst else none),
-          optNat f1, optNat f2, parseFS fs, parseOps ops with
-    | some o, some f1, some f2, some fs, some ops =>
-      let r := apply o fs ops f1 f2
+          parseB jc, optNat f1, optNat f2, optNat fu, parseB fm, parseFS fs, parseOps ops with
+    | some o, some jc, some f1, some f2, some fu, some fm, some fs, some ops =>
+      let r := applyF o jc fs ops { mover := f1, undo := fu, metaUpdate := fm, deletion := f2 }
       let raised := match r.raised with | none => "~" | some e => e.toString
       let md := match r.md with | .old => "old" | .new => "new"
-      s!"{raised} {md} {showBool r.rollbackFailed} {showBool (noClobber { fs := fs } ops f1)} {showFS r.fs}"
-    | _, _, _, _, _ => "bad-op"
+      s!"{raised} {md} {showBool r.rollbackFailed} {showBool (noClobber jc { fs := fs } ops f1)} {showBool (noModeChange jc { fs := fs } ops f1)} {showFS r.fs}"
+    | _, _, _, _, _, _, _, _ => "bad-op"
+  | ["rename", fs, a, b] =>
+    match parseFS fs, parsePath a, parsePath b with
+    | some fs, some a, some b =>
+      (match rename fs a b with
+        | .ok fs' => s!"ok {showFS fs'}"
+        | .error e => s!"E:{e.toString}")
+    | _, _, _ => "bad-op"
+  | ["chmod", fs, a, x] =>
+    match parseFS fs, parsePath a, parseB x with
+    | some fs, some a, some x =>
+      (match chmod fs a x with
+        | .ok (fs', old) => s!"ok {showBool old} {showFS fs'}"
+        | .error e => s!"E:{e.toString}")
+    | _, _, _ => "bad-op"
   | _ => "bad-op"
 
 end BreezyVerif.C13
